@@ -806,6 +806,12 @@ func (fr *FnRun) runRest(st *State, b *ssa.BasicBlock, rest []ssa.Instruction, d
 			k(st, res)
 			return
 		case *ssa.Panic:
+			if fr.ctr != nil && fr.ctr.Flags["maypanic"] != "" && in.Parent() == fr.fn {
+				// the contract allows this function to panic deliberately (documented behaviour):
+				// the path ends, callers are told by the assumption list
+				fr.ex.Assumptions[ShortKey(fr.key)+" may panic deliberately (contract flag maypanic): the panicking path is not followed"] = true
+				return
+			}
 			fr.oblige(st, "panic", fmt.Sprint(fr.ord[in]), tFalse, nil, "explicit panic is unreachable")
 			return
 		case *ssa.RunDefers:
